@@ -274,21 +274,20 @@ func ruleMDGateOut(r *Run) {
 // binTransform: a call of `codec` is guarded by strings.HasSuffix(key, "-bin") true, its results are stored into a slice that flows into the MapUpdate value.
 func (p *Program) binTransform(g mdGate, codec string) bool {
 	ok := false
-	eachInstr(g.fn, func(in ssa.Instruction) {
+	// the transformation loop may live in a transparent helper called under the suffix test
+	p.eachInstrRegion(g.fn, func(_ *ssa.Function, in ssa.Instruction) {
 		c, isCall := in.(*ssa.Call)
 		if !isCall || calleeName(c) != codec {
 			return
 		}
-		guarded := false
-		for _, gf := range guardsOf(c.Block()) {
+		guarded := p.guardedInEveryContext(c.Block(), func(gf guardFact) bool {
 			hc, isC := gf.Cond.(*ssa.Call)
 			if !isC || !gf.True || calleeName(hc) != "strings.HasSuffix" {
-				continue
+				return false
 			}
-			if s, isS := constString(hc.Call.Args[1]); isS && s == "-bin" && p.derivedFromKey(hc.Call.Args[0], g.rangeKey) {
-				guarded = true
-			}
-		}
+			s, isS := constString(hc.Call.Args[1])
+			return isS && s == "-bin" && p.derivedFromKey(hc.Call.Args[0], g.rangeKey)
+		})
 		if !guarded {
 			return
 		}
@@ -647,6 +646,22 @@ func ruleTrailerPhase(r *Run) {
 		})
 	}
 	n := 0
+	constKeyWrite := func(in ssa.Instruction, c ssa.CallInstruction) {
+		n++
+		k, isC := constString(c.Common().Args[1])
+		key := "serveGRPC/after-handler:" + strings.ToLower(k)
+		if !isC {
+			r.bad("serveGRPC/after-handler:dynamic-key", in.Pos(), "trailer-phase header write with a non-constant key")
+			return
+		}
+		good := announced[strings.ToLower(k)] || strings.HasPrefix(k, "Trailer:")
+		r.check(good, key, in.Pos(), "key is announced in the Trailer header (or carries the trailer prefix)",
+			fmt.Sprintf("header %q is written after the response headers were flushed but is neither announced in Trailer nor prefixed with http.TrailerPrefix: net/http silently drops it", k))
+	}
+	isHeaderWrite := func(c ssa.CallInstruction) bool {
+		cn := calleeName(c)
+		return cn == "(net/http.Header).Set" || cn == "(net/http.Header).Add"
+	}
 	eachInstr(fn, func(in ssa.Instruction) {
 		c, ok := in.(ssa.CallInstruction)
 		if !ok {
@@ -656,23 +671,21 @@ func ruleTrailerPhase(r *Run) {
 		if w, _ := (pathQuery{fn: fn, start: hcall, target: func(x ssa.Instruction) bool { return x == in }}).find(); w == nil {
 			return
 		}
-		cn := calleeName(c)
 		switch {
-		case cn == "(net/http.Header).Set" || cn == "(net/http.Header).Add":
-			n++
-			k, isC := constString(c.Common().Args[1])
-			key := "serveGRPC/after-handler:" + strings.ToLower(k)
-			if !isC {
-				r.bad("serveGRPC/after-handler:dynamic-key", in.Pos(), "trailer-phase header write with a non-constant key")
-				return
-			}
-			good := announced[strings.ToLower(k)] || strings.HasPrefix(k, "Trailer:")
-			r.check(good, key, in.Pos(), "key is announced in the Trailer header (or carries the trailer prefix)",
-				fmt.Sprintf("header %q is written after the response headers were flushed but is neither announced in Trailer nor prefixed with http.TrailerPrefix: net/http silently drops it", k))
+		case isHeaderWrite(c):
+			constKeyWrite(in, c)
 		default:
 			callee := staticCallee(c)
 			if callee == nil || !p.InModule(callee) {
 				return
+			}
+			// a transparent helper called in the trailer phase: its constant-key writes happen in the trailer phase too
+			if p.isTransparent(callee) {
+				p.eachInstrRegion(callee, func(_ *ssa.Function, hin ssa.Instruction) {
+					if hc, ok := hin.(ssa.CallInstruction); ok && isHeaderWrite(hc) {
+						constKeyWrite(hin, hc)
+					}
+				})
 			}
 			// does the callee write headers with dynamic keys?
 			prefixes, writes := p.headerKeyPrefixes(callee, c.Common().Args, 0)
